@@ -40,6 +40,7 @@ def cvt (dst : FFmt) : FP → FP
 
 inductive FConv
   | i2f (pre : Expr) (t : ITy) (p : FFmt) (k : Nat)      -- `(pre(s) as fP) / 2^k.0`, `pre(s)` of machine type `t`
+  | i2fm (pre : Expr) (t : ITy) (p : FFmt) (k : Nat)     -- `(pre(s) as fP) * 2^-k` (multiplication by the exact reciprocal)
   | viaInt (pre : Expr) (f : FConv)                      -- `iX::to_fP(pre(s))`
   | f2i (p : FFmt) (k : Nat) (t : ITy) (post : Expr)     -- `post((s * 2^k.0) as t)`
   | thenInt (f : FConv) (g : Expr)                       -- `g(f(s))`
@@ -49,6 +50,7 @@ inductive FConv
 /-- value of an integer→float conversion on integer input `s` -/
 def FConv.i2fVal (s : Int) : FConv → FP
   | .i2f pre _ p k => div p.fmt (ofInt p.fmt (val s pre)) (.fin false ((2 : Rat) ^ k))
+  | .i2fm pre _ p k => mul p.fmt (ofInt p.fmt (val s pre)) (.fin false (((2 : Rat) ^ k)⁻¹))
   | .viaInt pre f => f.i2fVal (val s pre)
   | _ => .nan
 
